@@ -40,6 +40,18 @@ func dbgRender(args []string) {
 			x := scanXML(doc, c30Marker, false)
 			fmt.Fprintln(os.Stderr, "xml:", x.Err, x.NameHits)
 		}
+	case "rerr":
+		all := append(append([]string{}, c30Meta...), c30Control(false)...)
+		for _, site := range c30Sites {
+			for _, p := range all {
+				for _, combo := range []string{args[1]} {
+					cerr, outs := c30RenderAll(site.Src(dq(p), p), site.Multi, []string{combo})
+					if cerr == nil && outs[0].err != nil {
+						fmt.Printf("%s %q [%s]: %v\n", site.Name, p, combo, outs[0].err)
+					}
+				}
+			}
+		}
 	case "c47":
 		t0 := time.Now()
 		r := c47Oracle(args[1])
